@@ -69,9 +69,18 @@ def run(ctx):
 def match_descriptor(ctx, desc):
     """what Token.match compares: self.normalized against values (upper-cased for keywords; regex: IGNORECASE search)"""
     f = ctx.repo.func('sqlparse.sql.Token.match')
-    text = src(f.node)
-    ok_norm = 'self.normalized in values' in text and 'pattern.search(self.normalized)' in text
-    ok_upper = 'v.upper() for v in values' in text and 're.IGNORECASE if self.is_keyword' in text
+    nodes = list(own_nodes(f.node))
+    # exact arm: `self.normalized in <values>`; regex arm: `<compiled>.search(self.normalized)`
+    in_values = any(isinstance(n, ast.Compare) and len(n.ops) == 1 and isinstance(n.ops[0], ast.In) and src(n.left) == 'self.normalized' for n in nodes)
+    searches = [n for n in nodes if isinstance(n, ast.Call) and isinstance(n.func, ast.Attribute) and n.func.attr in ('search', 'match', 'fullmatch')
+                and not is_name(n.func.value, 're')]
+    ok_norm = in_values and bool(searches) and all(len(n.args) == 1 and src(n.args[0]) == 'self.normalized' for n in searches)
+    upper_values = any(isinstance(n, (ast.GeneratorExp, ast.ListComp)) and isinstance(n.elt, ast.Call) and isinstance(n.elt.func, ast.Attribute)
+                       and n.elt.func.attr == 'upper' and is_name(n.elt.func.value, n.generators[0].target.id if isinstance(n.generators[0].target, ast.Name) else '')
+                       for n in nodes)
+    icase = any(isinstance(n, ast.IfExp) and src(n.body) == 're.IGNORECASE' and src(n.test) == 'self.is_keyword' for n in nodes) or any(
+        isinstance(n, ast.If) and src(n.test) == 'self.is_keyword' and any('re.IGNORECASE' in src(x) for x in n.body) for n in nodes)
+    ok_upper = upper_values and icase
     ctx.need(ok_norm, 'Token.match no longer compares self.normalized (shape changed)')
     return {'upper': bool(desc['upper']) and ok_upper, 'ws': bool(desc['ws']), 'values_upper': ok_upper}
 
@@ -244,8 +253,25 @@ def check_is_keyword_upper(ctx):
 
 
 ACCEPTED_NEWLINE = {
-    'engine.grouping.group_comments.<lambda1>': 'extent of a comment run: line breaks between consecutive comments belong to the Comment group (only whitespace leaves move)',
+    # keyed by (outer function, role): the predicate handed to token_not_matching in group_comments, however it is written
+    ('engine.grouping.group_comments', 'token_not_matching predicate'):
+        'extent of a comment run: line breaks between consecutive comments belong to the Comment group (only whitespace leaves move)',
 }
+
+
+def _newline_role(f):
+    """(outermost function short name, role) of a nested predicate, or (f.short, None)"""
+    outer = f
+    while outer.parent is not None:
+        outer = outer.parent
+    if outer is f:
+        return f.short, None
+    for n in own_nodes(outer.node, include_lambdas=False):
+        if isinstance(n, ast.Call) and isinstance(n.func, ast.Attribute) and n.func.attr == 'token_not_matching' and n.args:
+            a = n.args[0]
+            if (isinstance(a, ast.Lambda) and a is f.node) or (isinstance(a, ast.Name) and not isinstance(f.node, ast.Lambda) and a.id == f.node.name):
+                return outer.short, 'token_not_matching predicate'
+    return outer.short, None
 
 
 def check_newline_sensitivity(ctx):
@@ -266,9 +292,10 @@ def check_newline_sensitivity(ctx):
             if hit is None:
                 continue
             n += 1
-            key = f'{f.short}:{hit}'
-            if f.short in ACCEPTED_NEWLINE:
-                ctx.ob('R11.7', key, f'{f.mod.relpath}:{x.lineno}', 'newline test accepted', 'accepted', ACCEPTED_NEWLINE[f.short])
+            role = _newline_role(f)
+            key = f'{role[0]}:{role[1] or f.short}:{hit}'
+            if role in ACCEPTED_NEWLINE:
+                ctx.ob('R11.7', key, f'{f.mod.relpath}:{x.lineno}', 'newline test accepted', 'accepted', ACCEPTED_NEWLINE[role])
             else:
                 ctx.ob('R11.7', key, f'{f.mod.relpath}:{x.lineno}', 'the parse path does not distinguish line breaks from other whitespace', False,
                        f'`{hit}` in {f.short}: replacing a line break by a blank (or the reverse) changes statement boundaries or the tree')
